@@ -101,6 +101,23 @@ def special_projects():
     return out
 
 
+def padded_fault_projects():
+    """a rule fault inside an included file that begins with blank lines / blanks and ends with some
+    (positions inside an included file count from ITS first byte, whatever that byte is); nesting 1-2"""
+    out = []
+    faults = [b"TYPE @dup any\nTYPE @dup any\n", b"GET /same\n  200 any\nGET /same\n  200 any\n", b"TAG @tt\nTAG @tt\n",
+              b"GET /q\n  Query \"a=1\"\n    {\"a\": 1}\n  Query \"b=1\"\n    {\"b\": 1}\n  200 any\n", b"SERVER @s\nSERVER @s\n", b"GET /m\n  Tags @nosuchtag\n  200 any\n"]
+    pads = [b"\n", b"\n\n\n", b"   \n\t\n", b"  ", b"\n  ", b""]
+    for i, f in enumerate(faults):
+        for j, pad in enumerate(pads):
+            body = pad + f + [b"", b"\n\n", b"  \n"][(i + j) % 3]
+            if j % 2 == 0:
+                out.append({"root.jst": b"JSIGHT 0.3\nTYPE @first any\nINCLUDE inc/a.jst\nTYPE @last any\n", "inc/a.jst": body})
+            else:
+                out.append({"root.jst": b"JSIGHT 0.3\nINCLUDE mid.jst\n", "mid.jst": pads[(j + 1) % len(pads)] + b"TYPE @m any\nINCLUDE deep/b.jst\n", "deep/b.jst": body})
+    return out
+
+
 def twin_projects(rng, n):
     """the same WRITTEN include name used from several directories, where it names different
     files with different content (names resolve relative to the including file)"""
@@ -178,7 +195,7 @@ def matches_finding(v, f):
 def run(tier, out, model_ok, proof):
     rng = random.Random(seed())
     big = tier == "thorough"
-    projects = special_projects() + deep_chain_projects() + twin_projects(rng, 300 if big else 40) + context_fault_projects(rng, 400 if big else 60)
+    projects = special_projects() + padded_fault_projects() + deep_chain_projects() + twin_projects(rng, 300 if big else 40) + context_fault_projects(rng, 400 if big else 60)
     for i in range(2500 if big else 300):
         roots = treecorr.gen_structured(rng, with_macros=rng.random() < 0.25)
         if rng.random() < 0.25:
@@ -246,7 +263,7 @@ def run(tier, out, model_ok, proof):
     out.coverage.update({
         "evaluations": len(cases),
         "distinct_nontrivial": sum(1 for _, f, _ in metas if len(f) > 1),
-        "rule": "structured documents (some with one injected rule fault) cut at directive boundaries into include trees (whole sibling runs, or any contiguous run of directive lines; nesting <= 3, pieces in sub-directories, equal sibling runs included from the same file, files without a final newline, cuts after directives that still wait for children) + hand-picked projects + include chains 5 to 33 levels deep (with and without a rule fault in the innermost file) + documents with a context-refused directive as the last one before an INCLUDE (the included file a continuation, empty, comment-only; INCLUDE without a final line end; nested) + projects in which one written include name is used from several directories and names different files; each project is built and compared with its textual inlining (lib/meta.py): catalog JSON, or message and corresponding file:line; forests are compared with the extracted Coq model; non-trivial = at least one INCLUDE",
+        "rule": "structured documents (some with one injected rule fault) cut at directive boundaries into include trees (whole sibling runs, or any contiguous run of directive lines; nesting <= 3, pieces in sub-directories, equal sibling runs included from the same file, files without a final newline, cuts after directives that still wait for children) + hand-picked projects + rule faults inside included files that begin and end with blank lines or blanks + include chains 5 to 33 levels deep (with and without a rule fault in the innermost file) + documents with a context-refused directive as the last one before an INCLUDE (the included file a continuation, empty, comment-only; INCLUDE without a final line end; nested) + projects in which one written include name is used from several directories and names different files; each project is built and compared with its textual inlining (lib/meta.py): catalog JSON, or message and corresponding file:line; forests are compared with the extracted Coq model; non-trivial = at least one INCLUDE",
         "samples": [{n: d.decode("latin1")[:200] for n, d in projects[0].items()}],
         "traces_validated_against_impl": (len([c for c in cases if c["id"].startswith("p")]) - len(mism)) if model_ok else 0,
         "accepted_pairs": acc, "rejected_pairs": rej,
